@@ -133,6 +133,27 @@ func call(b kafka.GroupBalancer, ms []member, ps []part) (res string) {
 	return canon(b.AssignGroups(gm, gp))
 }
 
+// helpers emits the cases for the unexported helpers (through verif_export_c14.go):
+//
+//	fmbt <members> <topic>      -> ids of findMembersByTopic(members)[topic] in slice order, `,`-separated
+//	fparts <topic> <parts>      -> findPartitions(topic, parts)
+func helpers(ms []member, ps []part, topics int) {
+	gm, gp := toGo(ms, ps)
+	byTopic := kafka.VerifFindMembersByTopic(gm)
+	for t := 0; t < topics; t++ {
+		var ids []string
+		for _, m := range byTopic[topicName(t)] {
+			ids = append(ids, "x"+hex.EncodeToString([]byte(m.ID)))
+		}
+		o := "-"
+		if len(ids) > 0 {
+			o = strings.Join(ids, ",")
+		}
+		fmt.Fprintf(out, "fmbt %s %d\t%s\n", fmtMembers(ms), t, o)
+		fmt.Fprintf(out, "fparts %d %s\t%s\n", t, fmtParts(ps), ints(kafka.VerifFindPartitions(topicName(t), gp)))
+	}
+}
+
 // run emits the case for the named balancer; RackAffinity is called `repeat` times to sample Go's map
 // iteration orders and every distinct output becomes its own case line.
 func run(op string, ms []member, ps []part, repeat int) {
@@ -231,7 +252,7 @@ func main() {
 			}
 			for p0 := 0; p0 <= 6; p0++ {
 				for p1 := 0; p0+p1 <= 6; p1++ {
-					if n == 4 && !thorough && r.Intn(4) != 0 {
+					if n == 4 && !thorough && r.Intn(2) != 0 {
 						continue
 					}
 					caseNo++
@@ -254,6 +275,9 @@ func main() {
 						run("range", ms, ps, 1)
 						run("rr", ms, ps, 1)
 					}
+					if caseNo%7 == 0 {
+						helpers(base, ps, 2)
+					}
 					// RackAffinity depends on the listing order by design: one order per group here
 					pm := perms[r.Intn(len(perms))]
 					ms := make([]member, n)
@@ -267,7 +291,7 @@ func main() {
 	}
 
 	// ---- 2. random larger groups
-	nLarge := 400
+	nLarge := 1200
 	if thorough {
 		nLarge = 6000
 	}
@@ -320,6 +344,7 @@ func main() {
 		run("range", ms, ps, 1)
 		run("rr", ms, ps, 1)
 		run("rack", ms, ps, rackRepeat)
+		helpers(ms, ps, nt)
 	}
 
 	// ---- 3. outside the hypotheses (duplicate topics in a member's list, equal member ids): the property
